@@ -225,13 +225,13 @@ def plan(prop, tier):
               B("Z", 3, mode="covered", runs=runs_neg_windows, configs=cfg_one_method, units="coarse", sample=600 if q else 10000)]
     elif prop == "C09":
         mc = [("A", 3, "valid", "single")] if q else [("A", 3, "valid", "all")]
-        bs = [B("A", 3 if q else 4, runs=runs_todates, configs=cfg_methods, sample=2500 if q else 60000),
+        bs = [B("A", 3 if q else 4, runs=runs_todates, configs=cfg_methods, sample=2500 if q else 25000),
               B("Y", 3, runs=runs_todates, configs=cfg_two_methods, sample=800 if q else None),
               B("B", 3, runs=runs_todates, configs=cfg_one_method, sample=600 if q else None),
-              B("Z", 3 if q else 4, runs=runs_todates, configs=cfg_two_methods, sample=600 if q else 20000),
-              B("C", 3, runs=runs_prefixes, configs=cfg_two_methods, sample=2500 if q else 20000),
+              B("Z", 3 if q else 4, runs=runs_todates, configs=cfg_two_methods, sample=600 if q else 8000),
+              B("C", 3, runs=runs_prefixes, configs=cfg_two_methods, sample=2500 if q else 10000),
               B("C", 7, sim=250 if q else 4000, depth=7, runs=runs_prefixes, configs=cfg_methods),      # longer mixed-offset histories: a later lot must not disturb earlier pairings
-              B("W", 4, runs=runs_prefixes, configs=cfg_two_methods, sample=5000 if q else 40000),     # wall-clock order against instant order (145k histories to 4 transactions: sampled)
+              B("W", 4, runs=runs_prefixes, configs=cfg_two_methods, sample=5000 if q else 20000),     # wall-clock order against instant order (145k histories to 4 transactions: sampled)
               B("A", 12, sim=100 if q else 2000, depth=12, runs=runs_todates, configs=cfg_two_methods)]
     elif prop == "C10":
         mc = [("Y", 3, "valid", "single")] if q else [("Y", 3, "valid", "all")]      # (depth 4 of this slice does not finish within the time limit)
